@@ -61,8 +61,12 @@ def r2(R, f):
     p_tol, p_drlv2, p_labels, p_label = pn[2], pn[3], pn[4], pn[5]
     lab_st = crules.stores_to_param(f, p_labels)
     drl_st = crules.stores_to_param(f, p_drlv2)
-    if not lab_st or not drl_st:
-        R.fail("score_and_assign: no stores to labels/drlv2 found (anchor moved)")
+    if not lab_st:
+        R.fail("score_and_assign: no stores to labels found (anchor moved)")
+    if not drl_st:
+        R.check(False, "C07.R2", f.file, f.line, f.name, "stores to %s" % p_drlv2,
+                "the winning error is never stored: every later grain within tolerance steals the peak")
+        return
     # induction variable of the work-shared loop
     ompd = [s for s in cfront.swalk(f.body) if s.k == "omp"]
     if len(ompd) != 1 or ompd[0].body.k != "for":
